@@ -7,7 +7,7 @@ import ast
 from ..core import Ctx, RuleResult, finding, short, walk_no_nested
 from ..model import AnalysisError, norm
 from ..mutants import Mut
-from ..rules import accum, axis, dim, inv
+from ..rules import accum, axis, dim, fwd, inv
 from ..rules.defuse import DefUse
 from ..rules.util import callee_name, cfg_of, lin_str, linear, node_exprs, nodes_where
 
@@ -24,6 +24,7 @@ EXPLANATION = (
     ' Round 4: (7) the space a relative size is a percentage of is clamped to >= 0 before scaling, in both placement helpers; (8) memo vs child queries (C06.7); (9) Overlay measures a flow top widget at the width top_w_size() renders it with (roles matched through the caller). Round 5: (2, extended) the share stored into the result is the share taken off the remainder; (10) no size expression counts one margin of a pair twice and its partner not at all.'
     ' Round 6: (11) an override of the bottom margin in Overlay.calculate_padding_filler keeps top + height + bottom == maxrow or is made exactly under height > maxrow; (12) Columns.column_widths reserves, credits back and floors weighted columns with one and the same amount.'
     ' (13) GUARD: a division by a total of weights is made only where that total was tested against 0 (fix 8b4fc37: zero weights only).'
+    ' Round 7: (14) PAIR: padding is moved from one side to the other only where the tests show the giving side positive and the receiving side negative (both mirror branches of the helpers); (15) FLAG-FWD: a self-call to a helper taking `focus` passes the method\'s own focus flag, not a per-item flag.'
 )
 NOT_DECIDED = "Non-negativity of every child dimension, proportionality within one column, focus-column visibility, min-width interaction beyond the ordering clause, alignment rounding - integer-rounding properties over ranges."
 ASSUMPTIONS = []
@@ -513,6 +514,49 @@ def rule_weight_total_nonzero(ctx: Ctx) -> RuleResult:
     return rr
 
 
+def rule_reduce_padding_mirror(ctx: Ctx) -> RuleResult:
+    """calculate_left_right_padding() gives padding up on the side that still has some when the other side is clipped
+    (negative): `X -= shift; Y += shift` moves columns from X to Y.  That is right exactly when X is the positive side
+    and Y the negative one - the pair of statements is made where the tests on the way show X > 0 and Y < 0.  One
+    merged branch for both directions (`right < 0 < left or left < 0 < right`) keeps one direction only: for the other
+    the clipped side is pushed further out and the child gets a negative width."""
+    from ..rules.exc import ExcEngine
+    from ..rules.runpos import _atoms
+
+    p = ctx.p
+    rr = RuleResult("PAIR", "C19.14", "padding is moved from one side to the other (X -= shift; Y += shift) only where the tests show X > 0 and Y < 0", floor=2)
+    for q in ("urwid.widget.padding.calculate_left_right_padding", "urwid.widget.filler.calculate_top_bottom_filler"):
+        if q not in p.functions:
+            continue
+        fi = p.functions[q]
+        cfg = cfg_of(fi)
+        subs = [n for n in cfg.nodes if isinstance(n.ast, ast.AugAssign) and isinstance(n.ast.op, ast.Sub) and isinstance(n.ast.target, ast.Name) and isinstance(n.ast.value, ast.Name)]
+        for sn in subs:
+            x, sh = sn.ast.target.id, sn.ast.value.id
+            adds = [n for n in cfg.nodes if isinstance(n.ast, ast.AugAssign) and isinstance(n.ast.op, ast.Add) and isinstance(n.ast.value, ast.Name) and n.ast.value.id == sh and isinstance(n.ast.target, ast.Name) and n.ast.target.id != x]
+            for an in adds:
+                y = an.ast.target.id
+                # same block: the add is reachable from the sub (or vice versa) without passing a test
+                facts = []
+                for t in cfg.nodes:
+                    if t.kind == "test" and sn not in ExcEngine._reach_without_edge(cfg, t, "T") and an not in ExcEngine._reach_without_edge(cfg, t, "T"):
+                        facts += _atoms(t.ast, True)
+                    elif t.kind == "test" and sn not in ExcEngine._reach_without_edge(cfg, t, "F") and an not in ExcEngine._reach_without_edge(cfg, t, "F"):
+                        facts += _atoms(t.ast, False)
+                if not any(set(e) <= {x, y, ""} and (x in e or y in e) for e, _o in facts) and not facts:
+                    pass
+                x_pos = any((e == {x: 1} and o == ">") or (e == {x: -1} and o == "<") for e, o in facts)
+                y_neg = any((e == {y: 1} and o == "<") or (e == {y: -1} and o == ">") for e, o in facts)
+                # only pairs that belong together (controlled by the same tests)
+                same_block = {id(t) for t in cfg.nodes if t.kind == "test" and sn not in ExcEngine._reach_without_edge(cfg, t, "T")} == {id(t) for t in cfg.nodes if t.kind == "test" and an not in ExcEngine._reach_without_edge(cfg, t, "T")}
+                if not same_block:
+                    continue
+                rr.inst(f"{short(fi)}: {x} -= {sh}; {y} += {sh}", True, {"move": f"{x} -> {y}", "shown": {f"{x} > 0": x_pos, f"{y} < 0": y_neg}})
+                if not (x_pos and y_neg):
+                    rr.add(finding("PAIR", fi, sn.ast, f"`{x} -= {sh}; {y} += {sh}` gives padding of `{x}` to `{y}` where the tests on the way do not show {x} > 0 and {y} < 0 (known: {', '.join(f'{e} {o} 0' for e, o in facts) or 'nothing'}): in the mirrored case the clipped side is pushed further out, {x} + {y} exceed the available space and the child is handed a negative size", construct=f"padding moved from {x} to {y} without {x} > 0 > {y}"))
+    return rr
+
+
 def run(ctx: Ctx):
     p = ctx.p
     return [
@@ -531,6 +575,8 @@ def run(ctx: Ctx):
         rule_margin_override(ctx),
         rule_reserve_credit(ctx),
         rule_weight_total_nonzero(ctx),
+        rule_reduce_padding_mirror(ctx),
+        fwd.run_self_fwd(p, "C19.15", ("urwid.widget",), floor=10),
     ]
 
 
@@ -540,6 +586,8 @@ _PD = "urwid/widget/padding.py"
 _FL = "urwid/widget/filler.py"
 _G = "urwid/widget/grid_flow.py"
 MUTANTS = [
+    Mut("pile-rows-with-item-focus", "urwid/widget/pile.py", "Pile.get_rows_sizes", "item_rows = self.get_item_rows(size, focus)", "item_rows = self.get_item_rows(size, item_focus)", "FLAG-FWD|widget.pile.Pile.get_rows_sizes|self-call passes item_focus as focus"),
+    Mut("padding-reduce-branches-merged", "urwid/widget/padding.py", "calculate_left_right_padding", "    if right < 0 < left:\n        shift = min(left, -right)\n        left -= shift\n        right += shift\n    elif left < 0 < right:\n        shift = min(right, -left)\n        right -= shift\n        left += shift\n", "    if right < 0 < left or left < 0 < right:\n        shift = min(abs(left), abs(right))\n        left -= shift\n        right += shift\n", "PAIR|widget.padding.calculate_left_right_padding|padding moved from left to right without left > 0 > right"),
     Mut("columns-divide-by-zero-weight-total", "urwid/widget/columns.py", "Columns.column_widths", "width = max(int(grow * weight / wtotal + 0.5) if wtotal else 0, self.min_width)", "width = max(int(grow * weight / wtotal + 0.5), self.min_width)", "GUARD|widget.columns.Columns.column_widths|division by untested weight total wtotal"),
     Mut("pile-no-weighted-test", "urwid/widget/pile.py", "Pile.get_item_rows", "        if wtotal == 0:\n            raise PileError(\"No weighted widgets found for Pile treated as a box widget\")\n", "", "GUARD|widget.pile.Pile.get_item_rows|division by untested weight total wtotal"),
     Mut("columns-zero-weight-reserves-nothing", "urwid/widget/columns.py", "Columns.column_widths", "                static_w = self.min_width\n", "                static_w = self.min_width if width else 0\n", "SIB|widget.columns.Columns.column_widths|reservation, credit and floor of weighted columns differ"),
